@@ -441,6 +441,40 @@ func c11(r *core.Report) {
 	}
 
 	// ---- C11-CLOSED-ERR-NONNIL
+	// ---- C11-DENY-IS-ERROR (after seed C11-s7): wlswarm refuses an ask from a peer its allow function rejects without
+	// running the handler. The only way to say so through the ServeAsk callback is a negative result (which every
+	// transport turns into an error at the asker, C11-NEG-IS-ERROR); 0 would be an empty *successful* answer that no
+	// handler produced.
+	r.Rule("C11-DENY-IS-ERROR", "wlswarm: on the rejected edge of the allow check the ServeAsk callback returns a provably negative number", 1)
+	if checkAddr, sa := needFn(r, "s/wlswarm", "checkAddr"), needFn(r, "s/wlswarm", "asker.ServeAsk"); checkAddr != nil && sa != nil {
+		for _, f := range core.WithAnons(sa) {
+			if f == sa || f.Signature.Results().Len() != 1 || len(core.CallsToFn(f, checkAddr)) == 0 {
+				continue
+			}
+			r.Analysed(f)
+			// keep only the paths on which checkAddr returned false: the edges on which it returned true are cut
+			cut := core.CutWhere(core.BoolCallGuard(func(c *ssa.CallCommon) bool { return core.IsCallToFn(c, checkAddr) }, true))
+			okAll := core.GuardEdges(f, cut) > 0
+			reached := core.Reach(f, nil, cut, nil)
+			pe := &core.PathEval{Reached: reached, Cut: cut}
+			nret := 0
+			for _, ret := range core.Returns(f) {
+				if !reached[ret] {
+					continue
+				}
+				nret++
+				for _, v := range pe.Leaves(ret.Results[0]) {
+					k, isK := core.ConstInt(v)
+					if !isK || k >= 0 {
+						okAll = false
+					}
+				}
+			}
+			r.Check(okAll && nret > 0, "C11-DENY-IS-ERROR", core.FnName(f), p.Pos(f.Pos()), "a rejected asker gets a negative result, which the transport reports as an error",
+				"when the allow function rejects the asker the callback can return a non-negative number: the transport reports an empty successful answer although no handler ran")
+		}
+	}
+
 	r.Rule("C11-CLOSED-ERR-NONNIL", "the ask hub's close reason is provably non-nil and returned on every closed case", 4)
 	ruleHubErrNonNil(r, h, nn, "C11-CLOSED-ERR-NONNIL", []*types.Var{h.askErr}, []string{"AskHub.ServeAsk", "AskHub.Deliver", "AskHub.checkClosed"})
 
